@@ -171,6 +171,7 @@ def run(ctx) -> int:
     drv.d2_abort_everywhere(ctx, WHICH, NT)
     ctx.exhaustive.append("an abort at every test index (<= 14) and an internal failure at rmslice call 1..7 of one fixed run per strategy x {line,char}")
     drv.d2_random(ctx, WHICH, NT, 2500 if ctx.thorough else 600)
+    drv.d2_content_oracles(ctx, WHICH, NT)
     drv.d2_move_aborts(ctx, WHICH, NT, 8 if ctx.thorough else 6, do_model=ctx.thorough)
     ctx.exhaustive.append("minimize-balanced + move: every verdict sequence of <= 6/8 tests on two bracketed files followed by an abort")
     drv.d2_touching_test(ctx, WHICH, 600 if ctx.thorough else 150)
